@@ -1,0 +1,27 @@
+//go:build verif
+
+package file
+
+import "sync/atomic"
+
+// VerifHookFn receives one call per crash-point marker: the marker's name, the path of the file
+// it concerns ("" where the call site does not know it) and a small integer argument (share index,
+// result flag). The callback may block: markers double as gates of a deterministic scheduler.
+type VerifHookFn func(ev, path string, n int)
+
+var verifHook atomic.Pointer[VerifHookFn]
+
+// SetVerifHook installs (or, with nil, removes) the marker callback.
+func SetVerifHook(f VerifHookFn) {
+	if f == nil {
+		verifHook.Store(nil)
+		return
+	}
+	verifHook.Store(&f)
+}
+
+func verifMark(ev, path string, n int) {
+	if h := verifHook.Load(); h != nil {
+		(*h)(ev, path, n)
+	}
+}
